@@ -306,11 +306,13 @@ def sc_toggle(cx, kind, skinds):
     b.check("reenabled", ("cov_mat",))
 
 
-def sc_change(cx, kind, skinds, read_first, via="setter", reads=("cov_mat", "err")):
+def sc_change(cx, kind, skinds, read_first, via="setter", reads=("cov_mat", "err"), other_axis=False):
     """value change after the total has (or has not) been read: relative sources follow the CURRENT values"""
     b = Box(cx, kind)
     for i, sk in enumerate(skinds):
         b.add(sk, "s%d" % i)
+    if other_axis:
+        b.add_other_axis("other")  # the most recently added source sits on the OTHER axis of the XY container
     for r in read_first:
         b.read(r)
     b.change_values(via=via)
@@ -398,6 +400,10 @@ def scenarios(tier, seed):
     for kind in ("xy:x", "xy:y"):
         for rf in [(), ("cov_mat",)]:
             S.append(Scenario("change-via-data/%s/SR/read-%s" % (kind, "+".join(rf) or "none"), sc_change, family="change-via-data/" + kind, params=dict(kind=kind, skinds=("SR",), read_first=rf, via="data")))
+            S.append(Scenario("change-via-data/%s/SR+other-axis-last/read-%s" % (kind, "+".join(rf) or "none"), sc_change, family="change-via-data/" + kind,
+                              params=dict(kind=kind, skinds=("SR",), read_first=rf, via="data", other_axis=True)))
+            S.append(Scenario("change/%s/MCR+other-axis-last/read-%s" % (kind, "+".join(rf) or "none"), sc_change, family="change/" + kind,
+                              params=dict(kind=kind, skinds=("MCR",), read_first=rf, other_axis=True)))
     # F4: add after read
     for kind in KINDS_DATA + KINDS_MODEL:
         for sk in [("SA", "SR"), ("SR", "MC")]:
